@@ -28,8 +28,8 @@
                    the source moved-from)
      move_fwd      std::move / uninitialized_move inside one block, first to last
      move_bwd      std::move_backward inside one block, last to first
-   so overlapping ranges behave as the real loops do ("*d = std::move(*s)"
-   with d == s leaves a moved-from object).
+   so overlapping ranges behave as the real loops do (a move assignment of an
+   element onto itself leaves a moved-from object).
    The range operations of insert(i, b, e) are not written here: they are the
    lists that translate/smallvec_ops.py extracts from small_vector.tcc
    (Gen/SmallVecOps.v, regenerated on every check run) and that [interp_rcalls]
@@ -144,9 +144,9 @@ Section Model.
       end
     end.
 
-  (* "*d = std::move(*s)" (w = c_assign) / "::new (d) T(std::move(*s))"
-     (w = c_construct) inside one block: read *s, write *d, *s is left
-     moved-from (so s = d ends with a moved-from object) *)
+  (* move assignment (w = c_assign) / move construction by placement new
+     (w = c_construct) of cell d from cell s inside one block: read s, write d,
+     s is left moved-from (so s = d ends with a moved-from object) *)
   Definition move1 (w : cell -> V -> res cell) (s d : nat) (blk : list cell) : res (list cell) :=
     c <- get s blk ;;
     v <- c_read c ;;
